@@ -29,7 +29,10 @@
 //!           the request-response handle) | 11 A dials B | 12 protocol b of node
 //!           a opens a substream | 13 the same and exits immediately | 15 protocol b of node a
 //!           force-closes | 16 the proxy cuts the link | 17 wait for idle expiry | 18 node B is shut
-//!           down (its runtime is killed)
+//!           down (its runtime is killed) | 21 bounce: protocol b of node a force-closes every
+//!           connection the moment it is told about it, A dials B; c = bit 0: the application of A polls
+//!           next_event() only once per interval, bit 1: the application of B does, bits 2-3: the interval
+//!           (1, 2, 3, 5 ms). The connection task can finish between two polls of the manager.
 //!   trace = 1 (rc (cnt ev*){observers})* dialA dialB
 //!           ev: 1 established 2 closed 3 inbound substream 4 outbound substream 5 substream open
 //!           failure 6 dial failure;  dial: 0 accepted 3 already connected 7 node gone 9 other error
@@ -581,9 +584,12 @@ enum PCmd {
     Chain(PeerId, u64),
     Open(PeerId, bool, oneshot::Sender<u64>),
     ForceClose(PeerId, oneshot::Sender<u64>),
+    /// from now on (true) / no longer (false): force-close every connection at once when it is announced
+    Bounce(bool, oneshot::Sender<u64>),
 }
 
 struct Proto {
+    bounce: bool,
     chain: (Option<PeerId>, u64),
     name: ProtocolName,
     log: Log,
@@ -604,7 +610,12 @@ impl UserProtocol for Proto {
             tokio::select! {
                 ev = service.next() => match ev {
                     None => return Ok(()),
-                    Some(TransportEvent::ConnectionEstablished { .. }) => self.tick.push(&self.log, 1),
+                    Some(TransportEvent::ConnectionEstablished { peer, .. }) => {
+                        self.tick.push(&self.log, 1);
+                        if self.bounce {
+                            let _ = service.force_close(peer);
+                        }
+                    }
                     Some(TransportEvent::ConnectionClosed { .. }) => self.tick.push(&self.log, 2),
                     Some(TransportEvent::SubstreamOpened { direction, substream, .. }) => {
                         self.tick.push(&self.log, match direction { Direction::Inbound => 3, Direction::Outbound(_) => 4 });
@@ -635,6 +646,10 @@ impl UserProtocol for Proto {
                     Some(PCmd::ForceClose(peer, tx)) => {
                         let _ = tx.send(service.force_close(peer).is_err() as u64);
                     }
+                    Some(PCmd::Bounce(on, tx)) => {
+                        self.bounce = on;
+                        let _ = tx.send(0);
+                    }
                 },
             }
         }
@@ -645,6 +660,8 @@ enum Ctl {
     DialAddr(Multiaddr, oneshot::Sender<u64>),
     DialPeer(PeerId, oneshot::Sender<u64>),
     AddAddr(PeerId, Multiaddr),
+    /// the application polls next_event() once per this many milliseconds (0: whenever it is woken)
+    Sparse(u64, oneshot::Sender<u64>),
 }
 
 fn dial_code(r: litep2p::Result<()>) -> u64 {
@@ -711,6 +728,7 @@ impl Node {
                 let log: Log = Default::default();
                 let (ctx, crx) = mpsc::unbounded_channel();
                 builder = builder.with_user_protocol(Box::new(Proto {
+                    bounce: false,
                     chain: (None, 0),
                     name: ProtocolName::from(name),
                     log: log.clone(),
@@ -732,20 +750,49 @@ impl Node {
             let addr = litep2p.listen_addresses().next().unwrap().clone();
             let app: Log = Default::default();
             tx.send((peer, addr, app.clone(), plogs, pcmd, nhandle, rhandle)).unwrap();
-            loop {
-                tokio::select! {
-                    ev = litep2p.next_event() => match ev {
+            // `sparse` > 0: a busy application. It polls next_event() exactly once, handles what it got, and
+            // is then busy with something else for `sparse` ms (a wake-up of the manager in between is not
+            // followed by a poll), so connection tasks and protocols run between two polls of the manager.
+            let mut sparse = 0u64;
+            'app: loop {
+                let (ev, c) = if sparse == 0 {
+                    tokio::select! {
+                        ev = litep2p.next_event() => (Some(ev), None),
+                        c = ctl_rx.recv() => (None, Some(c)),
+                    }
+                } else {
+                    let polled = {
+                        let fut = litep2p.next_event();
+                        futures::pin_mut!(fut);
+                        futures::poll!(fut)
+                    };
+                    let ev = match polled { std::task::Poll::Ready(ev) => Some(ev), std::task::Poll::Pending => None };
+                    let c = match ctl_rx.try_recv() {
+                        Ok(c) => Some(Some(c)),
+                        Err(mpsc::error::TryRecvError::Empty) => None,
+                        Err(mpsc::error::TryRecvError::Disconnected) => Some(None),
+                    };
+                    (ev, c)
+                };
+                if let Some(ev) = ev {
+                    match ev {
                         Some(Litep2pEvent::ConnectionEstablished { .. }) => tick.push(&app, 1),
                         Some(Litep2pEvent::ConnectionClosed { .. }) => tick.push(&app, 2),
                         Some(Litep2pEvent::DialFailure { .. }) | Some(Litep2pEvent::ListDialFailures { .. }) => tick.push(&app, 6),
-                        None => break,
-                    },
-                    c = ctl_rx.recv() => match c {
+                        None => break 'app,
+                    }
+                }
+                if let Some(c) = c {
+                    match c {
                         Some(Ctl::DialAddr(a, tx)) => { let _ = tx.send(dial_code(litep2p.dial_address(a).await)); }
                         Some(Ctl::DialPeer(p, tx)) => { let _ = tx.send(dial_code(litep2p.dial(&p).await)); }
                         Some(Ctl::AddAddr(p, a)) => { litep2p.add_known_address(p, std::iter::once(a)); }
-                        None => break,
-                    },
+                        Some(Ctl::Sparse(ms, tx)) => { sparse = ms; let _ = tx.send(0); }
+                        None => break 'app,
+                    }
+                }
+                if sparse > 0 {
+                    tokio::time::sleep(Duration::from_millis(sparse)).await;
                 }
             }
         });
@@ -1015,6 +1062,35 @@ async fn run_e2e(mut case: Vec<u64>) -> (Vec<u64>, Vec<u64>) {
                 }
                 first = Duration::from_millis(4 * KA_SHORT_MS + 3000);
             }
+            21 => {
+                let z = case[7 + 4 * k];
+                let ms = [1u64, 2, 3, 5][((z >> 2) & 3) as usize];
+                let ok = a.alive() && b.alive() && y <= n && (if x == 0 { &a } else { &b }).pcmd[y].is_some() && x <= 1;
+                if !ok {
+                    rc = 2;
+                } else {
+                    // the bouncer is armed, the applications become busy, A dials
+                    let set_bounce = |node: &Node, on: bool| {
+                        let (tx, rx) = oneshot::channel();
+                        let _ = node.pcmd[y].as_ref().unwrap().send(PCmd::Bounce(on, tx));
+                        rx
+                    };
+                    let set_sparse = |node: &Node, ms: u64| {
+                        let (tx, rx) = oneshot::channel();
+                        let _ = node.ctl.send(Ctl::Sparse(ms, tx));
+                        rx
+                    };
+                    let _ = ask(set_bounce(if x == 0 { &a } else { &b }, true)).await;
+                    let _ = ask(set_sparse(&a, if z & 1 == 1 { ms } else { 0 })).await;
+                    let _ = ask(set_sparse(&b, if z & 2 == 2 { ms } else { 0 })).await;
+                    let (tx, rx) = oneshot::channel();
+                    let _ = a.ctl.send(Ctl::DialAddr(b_via_proxy.clone(), tx));
+                    rc = ask(rx).await.unwrap_or(8);
+                    if rc == 0 {
+                        first = Duration::from_millis(2500);
+                    }
+                }
+            }
             18 => {
                 if b.alive() {
                     b.shutdown();
@@ -1027,6 +1103,17 @@ async fn run_e2e(mut case: Vec<u64>) -> (Vec<u64>, Vec<u64>) {
             _ => rc = 2,
         }
         settle(&tick, before, first).await;
+        if op == 21 && rc != 2 {
+            // back to normal: the bouncer is disarmed, the applications poll whenever they are woken
+            let (tx, rx) = oneshot::channel();
+            let _ = (if x == 0 { &a } else { &b }).pcmd[y].as_ref().unwrap().send(PCmd::Bounce(false, tx));
+            let _ = ask(rx).await;
+            for node in [&a, &b] {
+                let (tx, rx) = oneshot::channel();
+                let _ = node.ctl.send(Ctl::Sparse(0, tx));
+                let _ = ask(rx).await;
+            }
+        }
         tr.push(rc);
         let blank = |node: u64| if op == 14 && x == node && y <= n { Some(y + 1) } else { None };
         a.dump(&mut tr, blank(0), None);
@@ -1053,6 +1140,31 @@ struct GenSt {
     alive: [Vec<bool>; 2],
     connected: bool,
     b_up: bool,
+}
+
+/// Bounce scenarios: `cycles` times "A dials B and user protocol y of node x force-closes the connection the
+/// moment it is told about it", with busy applications (next_event() polled once per 1-5 ms): the connection
+/// can end before the manager is polled again after `accept()`. Per connection the application must see
+/// established, then closed.
+fn gen_bounce(rng: &mut Rng, transports: &[u64], cycles: u64) -> Vec<u64> {
+    let n = rng.range(1, 3);
+    let x = rng.below(2);
+    let y = rng.below(n + 1);
+    let r = rng.below(10);
+    // who is busy: both applications, only the bouncer's, only the other one's (its remote hangs up at once)
+    let busy = if r < 5 { 3 } else if r < 8 { 1 << x } else { 1 << (1 - x) };
+    let z = busy + 4 * rng.below(4);
+    let transport = rng.pick(transports);
+    let cfg = 2 * transport + 8 * rng.chance(50) as u64 + 16 * rng.chance(40) as u64;
+    let mut steps: Vec<[u64; 4]> = (0..cycles).map(|_| [21, x, y, z]).collect();
+    if rng.chance(50) {
+        steps.push([11, 0, 0, 0]); // afterwards an ordinary connection: it stays
+    }
+    let mut c = vec![1, n, cfg, steps.len() as u64];
+    for s in steps {
+        c.extend(s);
+    }
+    c
 }
 
 fn gen_e2e(rng: &mut Rng, thorough: bool, transports: &[u64]) -> Vec<u64> {
@@ -1283,6 +1395,9 @@ pub fn main(args: &Args) {
     let transports: Vec<u64> = if args.u64("quic", 0) == 1 { vec![2] } else { vec![0, 0, 1] };
     let every = args.u64("e2e-every", if thorough { 15 } else { 12 }).max(1);
     let loop_every = args.u64("loop-every", 5).max(1);
+    // one bounce scenario (20 connect / force-close-at-once cycles under busy applications) per 100 cases
+    let bounce_every = args.u64("bounce-every", 100).max(1);
+    let bounce_cycles = args.u64("bounce-cycles", 20);
     for i in 0..ncases {
         let mut r = rng.fork();
         cases.push(gen_unit(&mut r));
@@ -1293,6 +1408,10 @@ pub fn main(args: &Args) {
         if i % every == 0 {
             let mut r = rng.fork();
             cases.push(gen_e2e(&mut r, thorough, &transports));
+        }
+        if i % bounce_every == 0 {
+            let mut r = rng.fork();
+            cases.push(gen_bounce(&mut r, &transports, bounce_cycles));
         }
         if i % loop_every == 0 {
             let mut r = rng.fork();
